@@ -13,6 +13,7 @@
    conversion masks them (the C code leaves them uninitialised in the n-ary records). *)
 From Coq Require Import ZArith List Bool.
 From ScV Require Import Base.CInt MPI.Prog Gen.Consts Gen.NotifyC01 C01.MergeModel.
+From ScV Require C15.RangesModel.
 Import ListNotations.
 Local Open Scope Z_scope.
 
@@ -313,8 +314,54 @@ Definition nbx_core (fuel : nat) (R : list Z) (ep : option (list payload)) (sort
        let got' := if sorted then sort_by_src got else got in
        k (map fst got') (match ep with None => [] | Some _ => map snd got' end))).
 
+(* ---- SC_NOTIFY_RANGES: sc_notify_payload_ranges = sc_ranges_adaptive + sc_ranges_decode + point-to-point ---------------------
+   The rank ranges are the C15 model (C15/RangesModel.v: ranges_compute, first_last, peer_count, receivers, senders).
+   procs[q] = position + 1 of q in the receiver list (q <> me); MPI_Allreduce (MAX) of (number of peers, number of ranges),
+   MPI_Allgather of the first maxwin ranges of every rank, decode; then one message to every rank inside the own ranges
+   (flag int = 1 and the item for a real receiver, flag 0 else) and one receive from every rank whose ranges contain me.
+   The own rank, if listed, is inserted at its place.  Bytes behind a 0 flag are uninitialised in the code (0 here,
+   masked in the trace conversion). *)
+Definition K_ALLREDUCE_MAX : Z := 10.
+
+Definition ranges_procs (P me : Z) (R : list Z) : list Z :=
+  map (fun j => if j =? me then 0 else match index_of j R 0 with Some i => Z.of_nat i + 1 | None => 0 end) (ranks P).
+Definition flat_pairs (l : list (Z * Z)) : list Z := flat_map (fun p => [fst p; snd p]) l.
+Fixpoint unflat_pairs (n : nat) (l : list Z) : list (Z * Z) :=
+  match n with O => [] | S k => (nth 0 l 0, nth 1 l 0) :: unflat_pairs k (skipn 2 l) end.
+Fixpoint unflat_rows (P w : nat) (l : list Z) : list (list (Z * Z)) :=
+  match P with O => [] | S k => unflat_pairs w (firstn (2 * w) l) :: unflat_rows k w (skipn (2 * w) l) end.
+
+Definition ranges_msg (R : list Z) (ep : option (list payload)) (sz : Z) (q : Z) : payload :=
+  match index_of q R 0 with
+  | Some i => [1; 0; 0; 0] ++ match ep with Some ps => nth_pay ps i | None => [] end
+  | None => [0; 0; 0; 0] ++ match ep with Some _ => repeat 0 (Z.to_nat sz) | None => [] end
+  end.
+
+Definition ranges_core (P me nranges : Z) (R : list Z) (ep : option (list payload)) (sz : Z)
+           (k : list Z -> list payload -> prog) : prog :=
+  let procs := ranges_procs P me R in
+  let '(fp, lp) := RangesModel.first_last procs me in
+  let '(nwin, rarr) := RangesModel.ranges_compute procs me fp lp nranges in
+  Do (Coll K_ALLREDUCE_MAX (-1) [RangesModel.peer_count procs me; nwin]) (fun g =>
+    let maxwin := nth 1 g 0 in
+    Do (Coll K_ALLGATHER (-1) (flat_pairs (firstn (Z.to_nat maxwin) rarr))) (fun all =>
+      let tbl := unflat_rows (Z.to_nat P) (Z.to_nat maxwin) all in
+      let rcv := RangesModel.receivers tbl me in
+      let snds := RangesModel.senders tbl me in
+      phase (map (fun q => (q, c_SC_TAG_NOTIFY_RANGES, ranges_msg R ep sz q)) rcv)
+            (map (fun q => (q, c_SC_TAG_NOTIFY_RANGES)) snds)
+            (fun got =>
+               let real := filter (fun qm : Z * payload => negb (le_int (firstn 4 (snd qm)) =? 0)) (zip snds got) in
+               let others := map (fun qm : Z * payload => (fst qm, skipn 4 (snd qm))) real in
+               let all := match index_of me R 0 with
+                          | Some i => insert_by_src (me, match ep with Some ps => nth_pay ps i | None => [] end) others
+                          | None => others
+                          end in
+               k (map fst all) (match ep with Some _ => map snd all | None => [] end)))).
+
 (* ---- sc_notify_payload ------------------------------------------------------------------------------------------ *)
-(* typ: 0 allgather, 1 binary, 2 nary, 3 pex, 4 pcx, 5 rsx, 6 nbx (sc_notify_type_t); fuel: bound for the nbx polling loop *)
+(* typ: 0 allgather, 1 binary, 2 nary, 3 pex, 4 pcx, 5 rsx, 6 nbx, 7 ranges (sc_notify_type_t); fuel: bound for the nbx
+   polling loop; for ranges the parameter ntop carries the number of ranges *)
 Definition notify_prog (fuel : nat) (typ P me ntop nint nbot : Z) (sorted : bool) (R : list Z) (pays : option (list payload)) (sz : Z) (eager : bool) : prog :=
   let ep := epay pays eager in
   let k := finish R pays eager in
@@ -325,4 +372,5 @@ Definition notify_prog (fuel : nat) (typ P me ntop nint nbot : Z) (sorted : bool
   else if typ =? 4 then census_core K_RSB P R ep sorted k
   else if typ =? 5 then census_core K_RMA P R ep sorted k
   else if typ =? 6 then nbx_core fuel R ep sorted k
+  else if typ =? 7 then ranges_core P me ntop R ep sz k
   else Ret [].
